@@ -194,7 +194,8 @@ func (f *File) register(path string) string {
 	// If the name is invalid or has been registered already, make it unique by appending a number
 	unique := name
 	i := 0
-	for !f.isValidAlias(unique) {
+	// The name that ends up in the import block (after the prefix is added) must be unique too
+	for !f.isValidAlias(unique) || !f.isValidAlias(f.withPrefix(unique, alias || unique != name)) {
 		i++
 		unique = fmt.Sprintf("%s%d", name, i)
 	}
@@ -204,15 +205,21 @@ func (f *File) register(path string) string {
 		alias = true
 	}
 
-	// Only add a prefix if the name is an alias (a dot-import has no name to prefix)
-	if f.PackagePrefix != "" && alias && unique != "." {
-		unique = f.PackagePrefix + "_" + unique
-	}
+	unique = f.withPrefix(unique, alias)
 
 	// Register the eventual name
 	f.imports[path] = importdef{name: unique, alias: alias}
 
 	return unique
+}
+
+// withPrefix adds the PackagePrefix to name. Only add a prefix if the name is an alias (a
+// dot-import has no name to prefix).
+func (f *File) withPrefix(name string, alias bool) string {
+	if f.PackagePrefix != "" && alias && name != "." {
+		return f.PackagePrefix + "_" + name
+	}
+	return name
 }
 
 // GoString renders the File for testing. Any error will cause a panic.
